@@ -937,12 +937,18 @@ def correspondence(ctx):
         # follow are expected: the oracle verdicts of the real executions are what is wanted then)
         raise RuntimeError('scheduler/harness error: %s' % herr[:2])
     res.extra.pop('_witness', None)
+    # the step before the dispatcher: an accepted DELIVERY becomes a job whatever the build-status cache holds
+    from . import hookjobs
+    hookjobs.phase(ctx, res)
     return res
 
 
 def replay(ctx, payload):
     _load()
     f = payload['failure']['input']
+    if f.get('kind') == 'hook':
+        from . import hookjobs
+        return hookjobs.replay(ctx, Result(), f)
     sc = f['scenario']
     sc['threads'] = [[tuple(r) for r in th] for th in sc['threads']]
     res = Result()
